@@ -16,6 +16,7 @@ def extract(trace_path, max_len=60):
     held = {}      # g -> list of (m, mode)
     cur = {}       # g -> current stretch: list of (op, m, site)
     waiting = {}   # g -> (m, mode, site)
+    settle_seq = [0]
     stats = {"lock_events": 0, "stretches": 0, "nested": 0, "max_depth": 0, "scenarios": 0, "instances": set(), "sites": set()}
 
     def close_stretch(g):
@@ -47,16 +48,58 @@ def extract(trace_path, max_len=60):
         seen.add(key)
         progs.append({"scen": scen, "ops": [{"op": o, "m": m} for o, m, _ in ops], "sites": [s for _, _, s in ops], "g": g})
 
-    def end_scenario(final):
-        for g, (m, mode, site) in list(waiting.items()):
-            problems.append({"kind": "still-waiting", "scenario": scen, "g": g, "m": m, "mode": mode, "site": site,
-                             "holder_sites": [s for gg, hs in held.items() for (mm, _, s) in hs if mm == m]})
-        for g, hs in list(held.items()):
-            for (m, mode, site) in hs:
-                problems.append({"kind": "left-held", "scenario": scen, "g": g, "m": m, "mode": mode, "site": site})
+    def end_scenario(final, alive=None):
+        # Only what was already held / awaited at the "settle" mark and is still so at "quiesce" (300 ms later)
+        # counts: a goroutine merely caught inside a critical section moves on.
+        def old(sq):
+            return final and settle_seq[0] and sq < settle_seq[0]
+        alive_set = set(alive) if alive is not None else None
+        holders = {}   # m -> [(g, mode, site)]
+        for g, hs in held.items():
+            for (m, mode, site, sq) in hs:
+                if old(sq):
+                    holders.setdefault(m, []).append((g, mode, site))
+        # a mutex left held: its holder no longer exists (it returned - or died - without unlocking)
+        for m, hl in holders.items():
+            for (g, mode, site) in hl:
+                if alive_set is not None and g not in alive_set:
+                    problems.append({"kind": "left-held", "scenario": scen, "g": g, "m": m, "mode": mode, "site": site})
+        # goroutines still waiting for a mutex: follow who holds it. A cycle is a deadlock; a chain that ends at a
+        # goroutine that is gone is the consequence of a mutex left held; one that ends at a goroutine that is alive
+        # and not waiting for a lock (network, sleep, channel) is not a locking problem (the watchdog's business).
+        wait = {g: (m, mode, site) for g, (m, mode, site, sq) in waiting.items() if old(sq)}
+        reported = set()
+        for g0 in wait:
+            path, g = [], g0
+            while True:
+                if g in path:
+                    cyc = path[path.index(g):]
+                    key = tuple(sorted(cyc))
+                    if key not in reported:
+                        reported.add(key)
+                        problems.append({"kind": "deadlock-observed", "scenario": scen, "cycle": [
+                            {"g": x, "waits_at": wait[x][2], "m": wait[x][0]} for x in cyc]})
+                    break
+                path.append(g)
+                if g not in wait:
+                    break
+                m = wait[g][0]
+                hs = [h for h in holders.get(m, []) if h[0] != g] or holders.get(m, [])
+                if not hs:
+                    break
+                nxt = hs[0][0]
+                if alive_set is not None and nxt not in alive_set:
+                    key = ("gone", g0)
+                    if key not in reported:
+                        reported.add(key)
+                        problems.append({"kind": "still-waiting", "scenario": scen, "g": g0, "m": wait[g0][0], "mode": wait[g0][1],
+                                         "site": wait[g0][2], "holder_sites": [hs[0][2]]})
+                    break
+                g = nxt
         held.clear()
         cur.clear()
         waiting.clear()
+        settle_seq[0] = 0
 
     with open(trace_path) as f:
         for line in f:
@@ -68,20 +111,23 @@ def extract(trace_path, max_len=60):
                 scen = r.get("scenario", scen + 1)
                 stats["scenarios"] += 1
                 continue
+            if ev == "settle":
+                settle_seq[0] = r.get("seq", 0)
+                continue
             if ev == "quiesce":
-                end_scenario(True)
+                end_scenario(True, r.get("alive"))
                 continue
             if ev != "lk":
                 continue
             stats["lock_events"] += 1
-            g, m, mode, op, site = r["g"], r["m"], r["mode"], r["op"], r.get("site", "")
+            g, m, mode, op, site, sq = r["g"], r["m"], r["mode"], r["op"], r.get("site", ""), r.get("seq", 0)
             stats["instances"].add((scen, m))
             stats["sites"].add(site)
             if op == "req":
-                waiting[g] = (m, mode, site)
+                waiting[g] = (m, mode, site, sq)
             elif op == "acq":
                 waiting.pop(g, None)
-                held.setdefault(g, []).append((m, mode, site))
+                held.setdefault(g, []).append((m, mode, site, sq))
                 cur.setdefault(g, []).append(("L" if mode == "w" else "RL", m, site))
             elif op == "rel":
                 hs = held.get(g, [])
@@ -102,7 +148,7 @@ def extract(trace_path, max_len=60):
                     held.pop(g, None)
                     close_stretch(g)
     if scen:
-        end_scenario(True)
+        end_scenario(False)
     stats["instances"] = len(stats["instances"])
     stats["sites"] = len(stats["sites"])
     return progs, problems, stats
